@@ -9,7 +9,7 @@ import (
 
 // default code redemption: a session comes only from a complete 200 answer that carries an
 // access token, and carries exactly that token; everything else is an error without a session
-// verif: unwind=8 strlen=8 real=builder).do
+// verif: unwind=8 strlen=10 real=builder).do also=C05
 func vh_C14_redeem() {
 	tok := ndString("access-token")
 	kind := ndChoice("token-endpoint", 7)
@@ -43,7 +43,13 @@ func vh_C14_redeem() {
 	if ndBool("empty-code") {
 		code = ""
 	}
-	s, err := p.Redeem(context.Background(), "https://app.example/oauth2/callback", code, "")
+	verifier := ndString("pkce-code-verifier")
+	s, err := p.Redeem(context.Background(), "https://app.example/oauth2/callback", code, verifier)
+	if err != nil {
+		// the error travels to the error page (with --show-debug-on-error, to the browser): it
+		// must not carry the PKCE verifier
+		verifOpaque("C05.redeem.error-does-not-reveal-the-verifier", err.Error(), verifier)
+	}
 	verifAssert("C14.redeem.session-xor-error", (s != nil) != (err != nil))
 	if err == nil && s != nil {
 		verifReach("session")
